@@ -18,10 +18,13 @@ type BlueprintLookupHint[E Element] struct {
 	maxLevelPosition int
 	maxLevelOffset   int
 
-	// cache the resolved entries by the solver
-	cachedEntries []E
-	cachedOffset  int
-	lock          sync.Mutex
+	// entryOffsets[i] is the position in EntriesCalldata of the i-th entry. It only depends on
+	// the (immutable after compilation) calldata and not on the witness, so it can be shared
+	// by concurrent solvers. It is extended lazily under lock, up to the number of entries a
+	// lookup depends on (which are solved when the lookup is).
+	entryOffsets []int
+	nextOffset   int
+	lock         sync.Mutex
 }
 
 // ensures BlueprintLookupHint implements the BlueprintStateful interface
@@ -31,23 +34,18 @@ var _ BlueprintStateful[U64] = (*BlueprintLookupHint[U64])(nil)
 func (b *BlueprintLookupHint[E]) Solve(s Solver[E], inst Instruction) error {
 	nbEntries := int(inst.Calldata[1])
 
-	// check if we already cached the entries
+	// the blueprint is shared by all the solvers of a constraint system: it must not store
+	// witness-dependent values. We only cache the offsets of the entries and resolve the
+	// queried entries with the calling solver.
 	b.lock.Lock()
-	if len(b.cachedEntries) < nbEntries {
-		// we need to cache more entries
-		offset, delta := b.cachedOffset, 0
-		for i := len(b.cachedEntries); i < nbEntries; i++ {
-			var zero E
-			b.cachedEntries = append(b.cachedEntries, zero)
-			b.cachedEntries[i], delta = s.Read(b.EntriesCalldata[offset:])
-			offset += delta
-		}
-		b.cachedOffset = offset
+	for len(b.entryOffsets) < nbEntries {
+		b.entryOffsets = append(b.entryOffsets, b.nextOffset)
+		// the size of an encoded entry is only known to the solver
+		_, delta := s.Read(b.EntriesCalldata[b.nextOffset:])
+		b.nextOffset += delta
 	}
+	entryOffsets := b.entryOffsets[:nbEntries]
 	b.lock.Unlock()
-
-	// we only append to the entries and never resize the slice; so we can access these indices safely
-	entries := b.cachedEntries[:nbEntries]
 
 	nbInputs := int(inst.Calldata[2])
 
@@ -64,28 +62,18 @@ func (b *BlueprintLookupHint[E]) Solve(s Solver[E], inst Instruction) error {
 
 	for i := 0; i < nbOutputs; i++ {
 		idx, isUint64 := s.Uint64(inputs[i])
-		if !isUint64 || idx >= uint64(len(entries)) {
+		if !isUint64 || idx >= uint64(len(entryOffsets)) {
 			return fmt.Errorf("lookup query too large")
 		}
 		// we set the output wire to the value of the entry
-		s.SetValue(uint32(i+int(inst.WireOffset)), entries[idx])
+		entry, _ := s.Read(b.EntriesCalldata[entryOffsets[idx]:])
+		s.SetValue(uint32(i+int(inst.WireOffset)), entry)
 	}
 	return nil
 }
 
 func (b *BlueprintLookupHint[E]) Reset() {
-	// first we need to compute the capacity; that is 1 element per linear expression in the entries.
-	// this must be accurate since solver is multi threaded and we don't want to resize the slice
-	// while the solver is running.
-	capacity := 0
-	for i := 0; i < len(b.EntriesCalldata); i++ {
-		n := int(b.EntriesCalldata[i]) // length of the linear expression
-		capacity++
-		i += 2 * n // skip the linear expression
-	}
-
-	b.cachedEntries = make([]E, 0, capacity)
-	b.cachedOffset = 0
+	// nothing to reset: the blueprint keeps no solver-dependent state.
 }
 
 func (b *BlueprintLookupHint[E]) CalldataSize() int {
